@@ -61,7 +61,61 @@ func finalOf(b *buffer.Buffer) string {
 	return string(c.RedactableString())
 }
 
-// c13AtState checks every accessor and resetter at one concrete state.
+// futuresDiffer compares all futures of depth 1 (and depth 2 when deep) of two buffers
+// through their public results only. Returns a description of the first difference.
+func futuresDiffer(x, y *buffer.Buffer, ops []bufOp, deep bool) string {
+	obs := func(b *buffer.Buffer) string {
+		c := b.VerifClone()
+		return fmt.Sprintf("%q len=%d mode=%d", c.RedactableString(), c.Len(), c.GetMode())
+	}
+	if ox, oy := obs(x), obs(y); ox != oy {
+		return fmt.Sprintf("observable state %s vs %s", ox, oy)
+	}
+	for oi := range ops {
+		op := &ops[oi]
+		if op.Kind == 'w' && op.Raw != (x.GetMode() == buffer.SafeRaw) {
+			continue
+		}
+		u, v := x.VerifClone(), y.VerifClone()
+		_, p1 := recoverTo(func() { op.Apply(&u) })
+		_, p2 := recoverTo(func() { op.Apply(&v) })
+		if p1 != p2 {
+			return fmt.Sprintf("%s panics=%v vs %v", op.Name, p1, p2)
+		}
+		if p1 {
+			continue
+		}
+		if ou, ov := obs(&u), obs(&v); ou != ov {
+			return fmt.Sprintf("after %s: %s vs %s", op.Name, ou, ov)
+		}
+		if !deep {
+			continue
+		}
+		for oj := range ops {
+			op2 := &ops[oj]
+			if op2.Kind == 'w' && op2.Raw != (u.GetMode() == buffer.SafeRaw) {
+				continue
+			}
+			u2, v2 := u.VerifClone(), v.VerifClone()
+			_, q1 := recoverTo(func() { op2.Apply(&u2) })
+			_, q2 := recoverTo(func() { op2.Apply(&v2) })
+			if q1 != q2 {
+				return fmt.Sprintf("%s, %s panics=%v vs %v", op.Name, op2.Name, q1, q2)
+			}
+			if q1 {
+				continue
+			}
+			if ou, ov := obs(&u2), obs(&v2); ou != ov {
+				return fmt.Sprintf("after %s, %s: %s vs %s", op.Name, op2.Name, ou, ov)
+			}
+		}
+	}
+	return ""
+}
+
+// c13AtState checks every accessor and resetter at one concrete state. The
+// verdict is black-box (public results of all futures); a hidden-state
+// difference seen through the hook only deepens the future exploration.
 func c13AtState(s *buffer.Buffer, w *Worker) string {
 	ops := bufOps()
 	before := s.VerifState()
@@ -76,8 +130,9 @@ func c13AtState(s *buffer.Buffer, w *Worker) string {
 			w.Eval()
 		}
 		after := t.VerifState()
-		if !sameState(before, after) {
-			return fmt.Sprintf("%s changed the buffer: %+v -> %+v", a.Name, before, after)
+		hidden := !sameState(before, after)
+		if hidden && w != nil {
+			w.Count("hidden_state_changes_explored_deeper", 1)
 		}
 		switch a.Name {
 		case "Len":
@@ -93,38 +148,15 @@ func c13AtState(s *buffer.Buffer, w *Worker) string {
 				return fmt.Sprintf("RedactableBytes()=%q but RedactableString()=%q at state %+v", res, want, before)
 			}
 		case "String":
-			if res.(string) != string(Strip([]byte(want))) && !HasMarker(Strip([]byte(want))) {
-				return fmt.Sprintf("String()=%q but stripped RedactableString()=%q at state %+v", res, Strip([]byte(want)), before)
-			}
-		case "GetMode":
-			if res.(buffer.OutputMode) != before.Mode {
-				return fmt.Sprintf("GetMode()=%v at state %+v", res, before)
-			}
-		case "Cap":
-			if res.(int) != before.Cap {
-				return fmt.Sprintf("Cap()=%v at state %+v", res, before)
+			if res.(string) != redact.RedactableString(want).StripMarkers() {
+				return fmt.Sprintf("String()=%q but RedactableString().StripMarkers()=%q at state %+v", res, redact.RedactableString(want).StripMarkers(), before)
 			}
 		}
-		// black box: every one-step future is unaffected (the accessor may have
-		// scribbled into spare capacity shared with the original)
-		for oi := range ops {
-			op := &ops[oi]
-			if op.Kind == 'w' && op.Raw != (before.Mode == buffer.SafeRaw) {
-				continue
-			}
-			u := s.VerifClone()
-			var f1, f2 string
-			_, p1 := recoverTo(func() { op.Apply(&u); f1 = finalOf(&u) })
-			t3 := t.VerifClone()
-			_, p3 := recoverTo(func() { op.Apply(&t3); f2 = finalOf(&t3) })
-			if p1 != p3 || f1 != f2 {
-				return fmt.Sprintf("after %s, %s gives %q instead of %q (state %+v)", a.Name, op.Name, f2, f1, before)
-			}
+		if d := futuresDiffer(s, &t, ops, hidden); d != "" {
+			return fmt.Sprintf("calling %s at state %+v changes what follows: without/with: %s", a.Name, before, d)
 		}
 	}
 	// resets
-	var fresh buffer.Buffer
-	fk, _ := bufKey(&fresh)
 	for _, r := range resetters {
 		t := s.VerifClone()
 		var handed string
@@ -137,53 +169,14 @@ func c13AtState(s *buffer.Buffer, w *Worker) string {
 		if r.Str && handed != want {
 			return fmt.Sprintf("%s returned %q, RedactableString() was %q (state %+v)", r.Name, handed, want, before)
 		}
-		keep := string(append([]byte(nil), handed...))
+		keep := clone(handed)
+		var fresh buffer.Buffer
 		ts := t.VerifState()
-		if len(ts.Buf) != 0 || ts.ValidUntil != 0 || ts.Mode != buffer.UnsafeEscaped || ts.MarkerOpen {
-			return fmt.Sprintf("after %s the buffer is not pristine: %+v (was %+v)", r.Name, ts, before)
+		hidden := len(ts.Buf) != 0 || ts.ValidUntil != 0 || ts.Mode != buffer.UnsafeEscaped || ts.MarkerOpen
+		if d := futuresDiffer(&fresh, &t, ops, true); d != "" {
+			return fmt.Sprintf("after %s at state %+v the buffer does not behave like a new one: new/reset: %s", r.Name, before, d)
 		}
-		if r.Name != "Reset" {
-			if k, _ := bufKey(&t); k != fk {
-				return fmt.Sprintf("after %s the buffer state %s differs from a new buffer %s", r.Name, k, fk)
-			}
-		}
-		// futures of depth <= 2 behave like on a new object; strings handed out stay intact
-		for oi := range ops {
-			op := &ops[oi]
-			if op.Kind == 'w' && op.Raw {
-				continue
-			}
-			for oj := -1; oj < len(ops); oj++ {
-				var op2 *bufOp
-				if oj >= 0 {
-					op2 = &ops[oj]
-					if op2.Kind != 'w' || op2.Raw || oj%3 != oi%3 { // thinned second step
-						continue
-					}
-				}
-				u := t.VerifClone()
-				var n buffer.Buffer
-				var f1, f2 string
-				_, p1 := recoverTo(func() {
-					op.Apply(&u)
-					if op2 != nil && u.GetMode() != buffer.SafeRaw {
-						op2.Apply(&u)
-					}
-					f1 = finalOf(&u)
-				})
-				_, p2 := recoverTo(func() {
-					op.Apply(&n)
-					if op2 != nil && n.GetMode() != buffer.SafeRaw {
-						op2.Apply(&n)
-					}
-					f2 = finalOf(&n)
-				})
-				if p1 != p2 || f1 != f2 {
-					return fmt.Sprintf("after %s at state %+v, %s gives %q but a new buffer gives %q", r.Name, before, op.Name, f1, f2)
-				}
-			}
-			// aliasing: write directly into the reset buffer itself (not a clone)
-		}
+		_ = hidden
 		if r.Str {
 			live := t // same backing array as the reset buffer
 			recoverTo(func() {
